@@ -93,10 +93,9 @@ CHECKS = {
    technique="Coq proof (strong induction on the first chunk, invariants, permutation lemmas) over hand-written executable models + Coq-evaluated correspondence + implementation-side two-execution search",
    design="7 C09"),
  "C10": dict(
-   text="Coq theorems over Model/Comp.v: validity never reports a negative remaining time; for every modelled class except key-down skills, "
-        "whenever validity reports the skill usable, use returns no rejection (all parameters, states); key-down skills: the same under the "
-        "invariant kd_inv, which is preserved by use/elapse/stop when the applied cooldown is at least the maximum key-down time, and a "
-        "machine-checked counterexample without that condition (open known finding: a shipped cooldown-free key-down skill). Views of the "
+   text="Coq theorems over Model/Comp.v: validity never reports a negative remaining time; for every modelled class, "
+        "whenever validity reports the skill usable, use returns no rejection (all parameters, states), including key-down skills whose "
+        "validity mirrors use exactly (after the repair de960db of a genuine defect found by this check). Views of the "
         "model are compared in Coq with the real view methods on every run; totality of the Python views is tested, not proved.",
    note="Trusted: as C07. 'Views never raise' and well-formedness of the aggregated buff are explored on all jobs (every view of every installed "
         "component in reachable states), not proved.",
